@@ -101,6 +101,14 @@ func usesInterface(rt reflect.Type, depth int) bool {
 	return false
 }
 
+// bigIntMode selects, per operation, which 64-bit integers beyond +-2^53 are drawn: 0 none, 1 the
+// range that oj.Unmarshal is known to lose (it parses with ForceFloat), 2 the values at the very ends of
+// the int64 range, which take the parser's big-number path and do survive.
+var bigIntMode int
+
+var lossyInts = []int64{1<<53 + 1, -(1<<53 + 1), 1<<60 + 7, 9223372036854775799, -9223372036854775807}
+var edgeInts = []int64{9223372036854775807, 9223372036854775800, 9223372036854775806, -9223372036854775808}
+
 // fill sets rv to a drawn value inside the envelope decomposition can represent (DESIGN §4 C16).
 func fill(t *rapid.T, rv reflect.Value, depth int) {
 	switch rv.Kind() {
@@ -112,6 +120,12 @@ func fill(t *rapid.T, rv reflect.Value, depth int) {
 		vals := []int64{0, 1, -1, 42, 1000, -32000, 1 << 30, -(1 << 30)}
 		if rv.Kind() == reflect.Int64 || rv.Kind() == reflect.Int {
 			vals = append(vals, 1<<53, -(1 << 53), 1<<40+1)
+			switch bigIntMode {
+			case 1:
+				vals = append(vals, lossyInts...)
+			case 2:
+				vals = append(vals, edgeInts...)
+			}
 		}
 		if rv.Kind() == reflect.Int16 {
 			vals = []int64{0, 1, -1, 42, 1000, -32000}
@@ -123,6 +137,12 @@ func fill(t *rapid.T, rv reflect.Value, depth int) {
 		vals := []uint64{0, 1, 7, 65535}
 		if rv.Kind() == reflect.Uint64 || rv.Kind() == reflect.Uint {
 			vals = append(vals, 1<<53, 1<<40)
+			switch bigIntMode {
+			case 1:
+				vals = append(vals, 1<<53+1, 1<<60+7)
+			case 2:
+				vals = append(vals, 9223372036854775807, 9223372036854775801)
+			}
 		}
 		rv.SetUint(vals[sim.Intn(t, len(vals), "uint")])
 	case reflect.Float32:
@@ -164,6 +184,13 @@ func fill(t *rapid.T, rv reflect.Value, depth int) {
 			return
 		}
 		m := reflect.MakeMap(rv.Type())
+		// (integers at the ends of the int64 range reach the recomposer as json.Number, which it converts
+		// for struct fields and slice elements but not for map values: kept out of maps, noted in DESIGN §9)
+		saved := bigIntMode
+		if bigIntMode == 2 {
+			bigIntMode = 0
+		}
+		defer func() { bigIntMode = saved }()
 		for i := 0; i < n; i++ {
 			k := reflect.ValueOf([]string{"k", "a", "key 2"}[sim.Intn(t, 3, "mkey")])
 			e := reflect.New(rv.Type().Elem()).Elem()
@@ -281,6 +308,7 @@ type op16 struct {
 	Value    reflect.Value // addressable value of Type
 	Route    int
 	StructOf bool
+	BigInts  int
 }
 
 func typeLabel(rt reflect.Type) string {
@@ -320,7 +348,10 @@ func drawOp16(t *rapid.T) *op16 {
 	}
 	if o.Kind == "roundtrip" {
 		o.Value = reflect.New(o.Type).Elem()
+		o.BigInts = sim.Weighted(t, "bigints", 6, 1, 2)
+		bigIntMode = o.BigInts
 		fill(t, o.Value, 3)
+		bigIntMode = 0
 		o.Route = sim.Intn(t, 3, "route")
 	}
 	return o
@@ -521,7 +552,7 @@ func propC16(cx *sim.Ctx) {
 		got := o.run(nil)
 		cx.Exec()
 		cx.Steps(1)
-		attrs := map[string]any{"kind": o.Kind, "route": o.Route, "structof": o.StructOf, "anonymous": o.Type.Name() == "", "embedded": o.Type == reflect.TypeOf(za.Embeds{})}
+		attrs := map[string]any{"kind": o.Kind, "route": o.Route, "structof": o.StructOf, "ints_in_range_lost_by_forcefloat": o.BigInts == 1, "anonymous": o.Type.Name() == "", "embedded": o.Type == reflect.TypeOf(za.Embeds{})}
 		collides := !sawType[o.Type] && sawName[o.Type.Name()] > 0
 		attrs["name_seen_before_for_other_type"] = collides
 		if collides {
